@@ -65,8 +65,13 @@ def float_extra_step(a, b, a2, b2, ticks, probs):
         move = abs(Fraction(e2) - Fraction(e))
         if move >= 2 * h:
             q = Fraction(e) / h
-            already_round = abs(q - round(q)) < Fraction(1, 10**9)
-            if not (already_round and move <= 2 * h * (1 + Fraction(1, 10**9))):
+            # "already a multiple" and "exactly two steps" up to the representation error of the end itself (4 ulp of the
+            # end, expressed in steps): ends of magnitude 1e4..1e6 with steps of 1e-3 carry 1e-9..1e-8 steps of it
+            import math
+
+            slack = max(Fraction(1, 10**9), 4 * Fraction(math.ulp(max(abs(e), abs(e2)))) / h)
+            already_round = abs(q - round(q)) < slack
+            if not (already_round and move <= 2 * h * (1 + slack)):
                 return False
     return True
 
@@ -83,6 +88,13 @@ def lin_case(ctx, S, a, b, m, tag):
             s = prev.copy().domain([a, b])
             list(prev.ticks(m)) if m is not None else list(prev.ticks())
             ctx.path("linear.copy-sibling-asked-first")
+        elif mode == 2:
+            # the caller's own list object is given to two scales; the other one is made nice (coarsely) first
+            shared = [a, b]
+            other = S.LinearScale().domain(shared)
+            s = S.LinearScale().domain(shared)
+            other.nice(2)
+            ctx.path("linear.same-list-given-to-two-scales")
         else:
             s = S.LinearScale().domain([a, b])
         _REUSE["lin"] = s
